@@ -871,7 +871,7 @@ bool World::init()
   f.aconnect     = s_connect;
   f.arecvfrom    = s_recvfrom;
   f.asendto      = s_sendto;
-  f.agetsockname = s_getsockname;
+  f.agetsockname = cfg->no_getsockname ? nullptr : s_getsockname;
   f.abind        = s_bind;
   if (ares_set_socket_functions_ex(ch, &f, this) != ARES_SUCCESS) return false;
   ares_set_server_state_callback(ch, server_state_cb, this);
